@@ -15,6 +15,7 @@ from collections import namedtuple
 
 from .model import AnalysisError, node_src, is_self_attr, call_name
 from .paths import Interp, Domain, Env, TOP, NONE, Const, TupleV, Exc, ORD, ASYNC, fmt_trace, Opaque
+from .colls import ExactCollections as ExactCollectionsMixin, content, Ref, DictV
 
 P = namedtuple("P", "name")
 StarArgs = namedtuple("StarArgs", "name")
@@ -289,3 +290,125 @@ def _v(v):
     if isinstance(v, Const):
         return repr(v.v)
     return str(v)
+
+
+# =====================================================================================================================
+# Which constructor options reach the inner clients (C09.R3, C16.R3)
+# =====================================================================================================================
+Derived = namedtuple("Derived", "names")  # a value computed from these constructor parameters
+
+
+class OptionsDomain(ExactCollectionsMixin, Domain):
+    """PooledClient.__init__ followed by _create_client, interpreted: constructor parameters are symbols P(name); what
+    the client class is finally called with is recorded, positional arguments and `**mapping` included."""
+
+    async_enabled = False
+    subscript_may_raise = False
+    unpack_may_raise = False
+    global_keys = ("#ctor",)
+
+    def __init__(self, prog, fn, cls):
+        super().__init__(prog, fn)
+        self.cls = cls
+
+    def names_of(self, v):
+        if isinstance(v, P):
+            return {v.name}
+        if isinstance(v, Derived):
+            return set(v.names)
+        return set()
+
+    def truth(self, v, state=None):
+        if isinstance(v, (P, Derived)):
+            return None
+        return super().truth(v, state)
+
+    def never_none(self, v):
+        if isinstance(v, (P, Derived)):
+            return False
+        return super().never_none(v)
+
+    def name_load(self, name, state, node=None):
+        if state.has(name):
+            return state.get(name)
+        return TOP
+
+    def attr_load(self, objval, node, state):
+        b = self.coll_attr(objval, node)
+        if b is not None:
+            return b
+        if is_self_attr(node):
+            if state.has("self." + node.attr):
+                return state.get("self." + node.attr)
+            ca = self.cls.attrs.get(node.attr) if hasattr(self.cls, "attrs") else None
+            if ca is not None and node.attr != "client_class":
+                from .model import fold, NotConst
+                from .colls import lift_value
+
+                try:
+                    return lift_value(fold(ca, self.cls.module))
+                except NotConst:
+                    pass
+            return Opaque("self." + node.attr)
+        if isinstance(objval, (P, Derived)):
+            return BoundCall(objval, Const(node.attr))
+        return TOP
+
+    def call(self, node, fval, args, kwargs, state):
+        r = self.coll_call(node, fval, args, kwargs, state)
+        if r is not None:
+            return r
+        name = call_name(node)
+        if name == "getattr" and len(args) >= 2 and isinstance(node.args[0], ast.Name) and node.args[0].id == "self" and isinstance(args[1], Const) and isinstance(args[1].v, str):
+            k = "self." + args[1].v
+            return [("ok", state.get(k) if state.has(k) else Opaque(k), state)]
+        if fval == Opaque("self.client_class") or name in ("self.client_class", "Client"):
+            kw = {}
+            for k, v in kwargs.items():
+                if k.startswith("**"):
+                    c = content(v, state) if isinstance(v, Ref) else (v if isinstance(v, DictV) else None)
+                    if c is None:
+                        kw["**"] = TOP
+                        continue
+                    for kk, vv in c.items:
+                        kw[kk.v if isinstance(kk, Const) else str(kk)] = vv
+                else:
+                    kw[k] = v
+            rec = (tuple(args), tuple(sorted(kw.items(), key=lambda kv: kv[0])))
+            return [("ok", Opaque("new-client"), state.set("#ctor", state.get("#ctor", ()) + (rec,)))]
+        if name.startswith("self._") and name.count(".") == 1 and self.prog is not None:
+            m = self.prog.method(self.cls, name[5:], required=False)
+            if m is not None and m is not self.fn:
+                res = self.inline(node, m, args, kwargs, state)
+                if res is not None:
+                    return res
+        # anything else computed from constructor parameters derives from them
+        ns = set()
+        for a in list(args) + list(kwargs.values()):
+            ns |= self.names_of(a)
+        if isinstance(fval, BoundCall):
+            ns |= self.names_of(fval.obj)
+        if name == "isinstance":
+            return [("ok", TOP, state)]
+        return [("ok", Derived(frozenset(ns)) if ns else TOP, state)]
+
+
+def created_client_options(prog, cname="PooledClient"):
+    """-> list of (positional values, {option name: value}) - one per path through __init__ + _create_client - of the
+    call that creates an inner client.  Values: P(name) = the constructor parameter itself, Derived({names}) = computed
+    from those parameters, Const, or something else."""
+    cls = prog.cls(cname)
+    init = prog.method(cls, "__init__")
+    cc = prog.method(cls, "_create_client")
+    dom = OptionsDomain(prog, init, cls)
+    env = {p.name: P(p.name) for p in init.params if p.name != "self"}
+    outs = Interp(dom, init.node, prog).run(Env(env))
+    out = []
+    for s, v, t in outs.of("ret"):
+        inst = {k: val for k, val in s.d.items() if (isinstance(k, str) and k.startswith("self.")) or isinstance(k, tuple)}
+        d2 = OptionsDomain(prog, cc, cls)
+        o2 = Interp(d2, cc.node, prog).run(Env(inst))
+        for s2, v2, t2 in o2.of("ret"):
+            for pos, kw in s2.get("#ctor", ()):
+                out.append((pos, dict(kw)))
+    return init, cc, out
